@@ -76,6 +76,7 @@ func GenSeq(t *rapid.T) *SeqCase {
 			case 2:
 				s.UseCtx = true
 			}
+			s.Any = rapid.IntRange(0, 3).Draw(t, "viaAny") == 0
 			c.Steps = append(c.Steps, s)
 		}
 	}
@@ -105,11 +106,15 @@ func GenConc(t *rapid.T) *ConcCase {
 			case 1:
 				pb.UseCtx = true
 			}
+			pb.Any = rapid.IntRange(0, 3).Draw(t, "viaAny") == 0
 			ps = append(ps, pb)
 		}
 		c.Publishers = append(c.Publishers, ps)
 		c.Yield = append(c.Yield, rapid.IntRange(0, 3).Draw(t, "yield"))
 	}
 	c.Procs = rapid.SampledFrom([]int{1, 2, 4, 16}).Draw(t, "procs")
+	if rapid.Bool().Draw(t, "hasLate") {
+		c.Late = rapid.IntRange(1, 8).Draw(t, "late")
+	}
 	return c
 }
